@@ -6,7 +6,7 @@ THEOREM_NOTE = ("Props/C01.lean: the queue is sorted by (priority, arrival numbe
                 "reachable configuration is sorted; every take (main loop, waiting and non-waiting processing) removes the head of the active queue; no other "
                 "transition removes or reorders entries; a put-back leaves the queue unchanged")
 ASSUMPTIONS = ASSUME_SESSION
-RULE = ("loop-mode programs with 4..40 pending signals of equal priority, mixed priorities (incl. -20 and below), enqueues from inside handlers, non-waiting and waiting "
+RULE = ("[thorough tier adds the small-scope exhaustive enumeration of harness/gen/exhaustive.py: every loop program with a <= 2-action and a <= 1-action handler over a 10-action alphabet, 3 663 programs] loop-mode programs with 4..40 pending signals of equal priority, mixed priorities (incl. -20 and below), enqueues from inside handlers, non-waiting and waiting "
         "processing calls from handlers with a more urgent signal arriving mid-batch, nested loops; plus generic random loop/app sessions; oracle: at every first handler "
         "invocation for a signal, no signal pending in the same level is more urgent or equally urgent and older; non-trivial = >= 4 user signals dispatched")
 
@@ -40,6 +40,9 @@ def generate(rnd, tier):
     sid = SidCounter()
     cases = [gen_c01(rnd, sid) for _ in range(n)]
     cases += [gen_case(rnd, "loop", sid) for _ in range(n // 2)] + [gen_case(rnd, "app", sid) for _ in range(n // 5)]
+    if tier == "thorough":
+        from harness.gen.exhaustive import loop_programs
+        cases += list(loop_programs(sid))          # small-scope exhaustive: 3 663 programs
     return [with_cc(c) for c in cases]
 
 
